@@ -55,7 +55,7 @@ CHECKS = {
              'one earlier Disassemble call in the same process allowed, sync.Pool handing back pooled objects) is parsed back: its hex fields reproduce the input byte for byte and its line count matches the delivered operations; '
              'suggested-palette lines print exactly the RGBA values delivered through Reset; Decode and Disassemble return the same error on fully arbitrary input.',
         note='Bounds: L arbitrary instruction bytes after an empty metadata section (quick 5, thorough 7); fully arbitrary inputs of up to W bytes (quick 7, thorough 10) for the verdict. '
-             'Text harness: L = 4 (thorough 5) after an optional earlier call on one arbitrary byte; palette listing: 1..2 (thorough 1..4) colours in every form. '
+             'Text harness: L = 4 (thorough 5) after an optional earlier call on one arbitrary byte; palette listing: 1..4 (thorough 1..16) colours in every form. '
              'fmt rendering of values to text is a trusted stub (values are compared, not text; Fprintf appends its format string verbatim).',
     ),
     'C13': dict(
